@@ -112,6 +112,7 @@ class Exec(object):
         self.written = {}  # path -> model of the last write that reported success (None = unknown content)
         self.flipped = {}
         self.reader = None
+        self.written_objects = {}
         self.file_ops = 0
         self.ticks = 0
 
@@ -133,13 +134,16 @@ class Exec(object):
         self.file_ops += 1
 
     def run(self):
-        for i, op in enumerate(self.program["ops"]):
-            h = getattr(self, "do_" + op["op"], None)
-            if h is not None:
-                h(op)
-            else:
-                self.world.apply(op)
-        return self.result()
+        try:
+            for i, op in enumerate(self.program["ops"]):
+                h = getattr(self, "do_" + op["op"], None)
+                if h is not None:
+                    h(op)
+                else:
+                    self.world.apply(op)
+            return self.result()
+        finally:
+            self.disk.cleanup()
 
     # -- models of what gets written -----------------------------------------
     def _bar_model(self, mb):
@@ -251,12 +255,13 @@ class Exec(object):
         model.update(bpm=bpm, repeat=repeat)
         self.file_ops += 1
         feats = self._features(model, plan)
+        prev_len = len(self.disk.read_bytes(path)) if self.disk.exists(path) else None
         shadow = None
         if plan is not None:
             # fault-free shadow copy of the same object: the bytes a successful write must produce
             try:
                 r, _ = self._call_writer(op["what"], path + ".shadow", obj, bpm, repeat, mode)
-                shadow = bytes(self.disk.files.get(path + ".shadow", b"")) if r is True else None
+                shadow = bytes(self.disk.read_bytes(path + ".shadow")) if r is True else None
             except Exception:
                 shadow = None
             self.disk.next_plan = plan
@@ -271,7 +276,13 @@ class Exec(object):
         self.trace.ev("write", op["what"], path, bpm, repeat, mode, plan, ret if isinstance(ret, bool) else repr(ret), type(exc).__name__ if exc else None)
         self.shape.append("w:%s:%s:%s" % (op["what"], mode, self._shape_of(model, plan)))
         self.flipped.pop(path, None)
-        stored = bytes(self.disk.files.get(path, b""))
+        stored = bytes(self.disk.read_bytes(path))
+        if prev_len is not None and len(stored) < prev_len:
+            self.probes["path_overwritten_by_shorter_file"] += 1
+        key_obj = (op["what"], op.get("ref"))
+        if key_obj in self.written_objects and self.written_objects[key_obj] != repr(model["tracks"]):
+            self.probes["object_rewritten_after_edit"] += 1
+        self.written_objects[key_obj] = repr(model["tracks"])
         if isinstance(exc, SimBudgetExceeded):
             self.fail(self.prop + ".stall", "writing %s never finished: %s" % (op["what"], exc), **feats)
             self.written[path] = None
@@ -473,7 +484,7 @@ class Exec(object):
     # -- C17: flip stored bytes, read back -------------------------------------------
     def do_flip(self, op):
         path = op["path"]
-        data = self.disk.files.get(path)
+        data = bytearray(self.disk.read_bytes(path)) if self.disk.exists(path) else None
         if data is None or self.written.get(path) is None or path in self.flipped:
             return  # one damaged byte per stored file: a second flip could undo the first
         region = op["region"]
@@ -501,6 +512,7 @@ class Exec(object):
                 return
             old_tag = bytes(data[start : start + 4])
             data[start : start + 4] = new_tag
+            self.disk.write_bytes(path, data)
             self.flipped[path] = (region + " tag", start, int.from_bytes(old_tag, "big"), int.from_bytes(new_tag, "big"))
             self.faults["stored_flip"] += 1
             self.probes["flip_whole_tag"] += 1
@@ -522,6 +534,7 @@ class Exec(object):
                 if int.from_bytes(trial, "big") in (0, 1, 2):
                     new = 0x7F
         data[pos] = new
+        self.disk.write_bytes(path, data)
         self.flipped[path] = (region, pos, old, new)
         self.faults["stored_flip"] += 1
         self.probes["flip_" + region] += 1
@@ -531,7 +544,7 @@ class Exec(object):
         import mingus.midi.midi_file_in as mfi
 
         path = op["path"]
-        if path not in self.disk.files:
+        if not self.disk.exists(path):
             return
         self.file_ops += 1
         model = self.written.get(path)
@@ -855,6 +868,12 @@ def generate(rng, prop, tier):
             if plan is not None:
                 o["fault"] = plan
             ops.append(o)
+            if what in ("bar", "track", "comp") and nb and rng.random() < 0.25:
+                # the caller goes on composing: the object written a moment ago changes and is written again
+                tgt = o["ref"] if what == "bar" else rng.randrange(nb)
+                for _ in range(rng.randrange(1, 4)):
+                    ops.append({"op": "place", "bar": tgt, "notes": world.gen_chord(rng) if rng.random() < 0.8 else None, "v": rng.choice([[4, 0, 1, 1], [8, 0, 1, 1], [16, 0, 1, 1], [8, 0, 3, 2]])})
+                ops.append(dict(o, path=rng.choice(PATHS)))
     else:
         ncomps = rng.choice([1, 1, 2])
         comps = [make_comp(rng.choice([1, 1, 2, 3, 4]), rng.random() < 0.7) for _ in range(ncomps)]
@@ -1103,7 +1122,7 @@ def describe(prop):
             "rule": "Each run builds tracks/compositions through the library API (bars filled from a symbolic value vocabulary, all 30 keys, rests in every position, instruments, names) and writes 1-4 objects to a simulated disk with the five writers or through the public MidiFile/MidiTrack classes, fault-free, under short raw writes, or under an injected ENOSPC/EIO/EACCES at a seeded byte offset. The bytes that reached the simulated disk are decoded by an independent SMF reader and compared clause by clause with a tick model. Non-trivial = at least one write reached the disk. Distinct = distinct run shape (writer kinds, mode, #tracks, key classes, value classes, rest positions, instrument kinds, repeat, fault kind, buffer size).",
             "state_measure": "not used for C16",
             "fault_kinds": ["short_write", "write_error", "open_error"],
-            "probes": ["leading_rest_with_midi_instrument", "rounding_value", "name_length_2_byte_vlq", "delta_needs_2_byte_vlq", "write_error_raised", "write_error_returned_false", "error_plan_did_not_bite", "get_midi_data_observed", "builder_refused", "skipped_precondition"],
+            "probes": ["object_rewritten_after_edit", "path_overwritten_by_shorter_file", "leading_rest_with_midi_instrument", "rounding_value", "name_length_2_byte_vlq", "delta_needs_2_byte_vlq", "write_error_raised", "write_error_returned_false", "error_plan_did_not_bite", "get_midi_data_observed", "builder_refused", "skipped_precondition"],
             "clauses": ["C16.frame", "C16.noteon", "C16.noteoff", "C16.single", "C16.repeat", "C16.tempo", "C16.name", "C16.program", "C16.timesig", "C16.keysig", "C16.vlq", "C16.success_implies_complete", "C16.stall"],
             "components_real": common_real,
             "components_stub": ["disk (dsim.simfs raw file + fault plans)", "print"],
